@@ -281,4 +281,118 @@ theorem performLog_tree_matches_source (cfg : Cfg) (s : State) (now : Nat) (l : 
       obtain ⟨lc', id⟩ := p
       cases found <;> cases confirmed <;> simp [performLog, hc, hs, Gen.Src.c17PerformLoopTree]
 
+/-! ### trees with re-assigned leaves (`err != nil#2`, `isAfter#4`), exit kinds and (value, error) pairing -/
+
+/-- what `shouldUpdate` returns at each exit of the regenerated tree; `t` = the final `e.After(val.Transmit, b.Transmit)` -/
+def shouldUpdateOut (exit : Nat) (t : Option Bool) : Option Bool :=
+  match exit with
+  | 1 => none          -- `return false, err`
+  | 2 => some true
+  | 3 => none          -- `return false, err`
+  | 4 => some false
+  | 5 => some true
+  | 6 => some false
+  | _ => t
+
+/-- **`shouldUpdate` is the source's decision tree**: first comparison fails → error; new check block after stored →
+update; second comparison fails → error; stored after new → keep; stored indefinite → update; new indefinite → keep; else
+the transmit-block comparison — in this order, for all blockers; and the exits mapped to an error are exactly the
+`return`s whose second result is not `nil` -/
+theorem shouldUpdate_tree_matches_source (b val : IdBlocker) :
+    shouldUpdate b val =
+      shouldUpdateOut (Gen.Src.c17ShouldUpdateTree (after val.check b.check).isNone ((after val.check b.check).getD false)
+          (after b.check val.check).isNone ((after b.check val.check).getD false) b.transmit val.transmit indefinite)
+        (after val.transmit b.transmit) ∧
+    (∀ e t, 1 ≤ e → e ≤ 6 → (shouldUpdateOut e t).isSome = Gen.Src.c17ShouldUpdateTreeNil2 e) ∧
+    (∀ e, 1 ≤ e → e ≤ 7 → Gen.Src.c17ShouldUpdateTreeKind e = 1) := by
+  refine ⟨?_, ?_, ?_⟩
+  · cases h1 : after val.check b.check with
+    | none => simp [shouldUpdate, h1, Gen.Src.c17ShouldUpdateTree, shouldUpdateOut]
+    | some t1 =>
+      cases t1 with
+      | true => simp [shouldUpdate, h1, Gen.Src.c17ShouldUpdateTree, shouldUpdateOut]
+      | false =>
+        cases h2 : after b.check val.check with
+        | none => simp [shouldUpdate, h1, h2, Gen.Src.c17ShouldUpdateTree, shouldUpdateOut]
+        | some t2 =>
+          cases t2 with
+          | true => simp [shouldUpdate, h1, h2, Gen.Src.c17ShouldUpdateTree, shouldUpdateOut]
+          | false =>
+            by_cases h3 : b.transmit = indefinite <;> by_cases h4 : val.transmit = indefinite <;>
+              simp [shouldUpdate, h1, h2, h3, h4, Gen.Src.c17ShouldUpdateTree, shouldUpdateOut]
+  · intro e t h1 h2
+    have : e = 1 ∨ e = 2 ∨ e = 3 ∨ e = 4 ∨ e = 5 ∨ e = 6 := by omega
+    rcases this with rfl | rfl | rfl | rfl | rfl | rfl <;> rfl
+  · intro e h1 h2
+    have : e = 1 ∨ e = 2 ∨ e = 3 ∨ e = 4 ∨ e = 5 ∨ e = 6 ∨ e = 7 := by omega
+    rcases this with rfl | rfl | rfl | rfl | rfl | rfl | rfl <;> rfl
+
+/-- what `IsPending` returns at each exit: `(pending, err != nil)` -/
+def isPendingOut (exit : Nat) (isAfter : Bool) : Bool × Bool :=
+  match exit with
+  | 1 => (true, true)
+  | 2 => (true, true)
+  | 3 => (!isAfter, false)
+  | _ => (false, false)
+
+/-- **`IsPending` is the source's decision tree**: split error → `(true, err)`; id known → (`After` error → `(true, err)`,
+else `(!isAfter, nil)`); id unknown → `(false, nil)`; the error flag at each exit is "second result is not `nil`" -/
+theorem isPending_tree_matches_source (s : State) (now : Nat) (key : Str) :
+    isPending s now key =
+      (match splitUpkeepKey key with
+       | none => isPendingOut (Gen.Src.c17IsPendingTree true false false false) false
+       | some (blockKey, id) =>
+         let st := s.idBlocks.get now id
+         let a := after blockKey (st.getD ⟨[], []⟩).transmit
+         isPendingOut (Gen.Src.c17IsPendingTree false st.isSome a.isNone (a.getD false)) (a.getD false)) ∧
+    (∀ e a, 1 ≤ e → e ≤ 4 → (isPendingOut e a).2 = !Gen.Src.c17IsPendingTreeNil2 e) := by
+  constructor
+  · cases hs : splitUpkeepKey key with
+    | none => simp [isPending, hs, Gen.Src.c17IsPendingTree, isPendingOut]
+    | some p =>
+      obtain ⟨bk, id⟩ := p
+      cases h : s.idBlocks.get now id with
+      | none => simp [isPending, hs, h, Gen.Src.c17IsPendingTree, isPendingOut]
+      | some bl =>
+        cases ha : after bk bl.transmit with
+        | none => simp [isPending, hs, h, ha, Gen.Src.c17IsPendingTree, isPendingOut]
+        | some a => simp [isPending, hs, h, ha, Gen.Src.c17IsPendingTree, isPendingOut]
+  · intro e a h1 h2
+    have : e = 1 ∨ e = 2 ∨ e = 3 ∨ e = 4 := by omega
+    rcases this with rfl | rfl | rfl | rfl <;> rfl
+
+/-- **the stale-report loop body of `checkLogs` is the source's decision tree**: too few confirmations, split error,
+`Increment` error → `continue` (exits 1, 2, 3 — the next log is still looked at); every other path runs to the end of the
+body — for every log and whatever the nested conditions evaluate to -/
+theorem staleLog_tree_matches_source (cfg : Cfg) (s : State) (now : Nat) (l : Log)
+    (found confirmed : Bool) (sc lc st nk : Str) :
+    staleLog cfg s now l =
+      (if Gen.Src.c17StaleLoopTree l.confs cfg.minConfs (splitUpkeepKey l.key).isNone
+            (match splitUpkeepKey l.key with | some (c, _) => (increment c).isNone | none => false)
+            found confirmed sc lc st nk = 0 then
+        match splitUpkeepKey l.key with
+        | none => s
+        | some (logCheck, id) =>
+          match increment logCheck with
+          | none => s
+          | some nextKey => processLog cfg s now l.key logCheck id nextKey
+      else s) ∧
+    Gen.Src.c17StaleLoopTreeKind 1 = 2 ∧ Gen.Src.c17StaleLoopTreeKind 2 = 2 ∧ Gen.Src.c17StaleLoopTreeKind 3 = 2 := by
+  refine ⟨?_, rfl, rfl, rfl⟩
+  by_cases hc : l.confs < cfg.minConfs
+  · simp [staleLog, hc, Gen.Src.c17StaleLoopTree]
+  · cases hs : splitUpkeepKey l.key with
+    | none => simp [staleLog, hc, hs, Gen.Src.c17StaleLoopTree]
+    | some p =>
+      obtain ⟨lc', id⟩ := p
+      cases hi : increment lc' <;> cases found <;> cases confirmed <;>
+        simp [staleLog, hc, hs, hi, Gen.Src.c17StaleLoopTree]
+
+/-- exit kinds of the other coordinator trees: the perform loop is left by `continue` (never `break` / `return`),
+`updateIdBlock` and `Accept` by `return` -/
+theorem coordinator_exit_kinds_match_source :
+    Gen.Src.c17PerformLoopTreeKind 1 = 2 ∧ Gen.Src.c17PerformLoopTreeKind 2 = 2 ∧
+    Gen.Src.c17UpdateIdBlockTreeKind 1 = 1 ∧ Gen.Src.c17UpdateIdBlockTreeKind 2 = 1 ∧
+    Gen.Src.c17AcceptTreeKind 1 = 1 ∧ Gen.Src.c17AcceptTreeKind 2 = 1 := ⟨rfl, rfl, rfl, rfl, rfl, rfl⟩
+
 end AutoVerif.C17
